@@ -1092,6 +1092,7 @@ def r01_13(ck):
     from . import c06, c08
     c06.r06_2(ck)
     c08.r08_5(ck)
+    c08.r08_11(ck, rule='R01.13')
     OLD, NEW = ('R06.2', 'R08.5'), 'R01.13'
 
     for o in ck.obligations:
